@@ -1,6 +1,6 @@
 (* Corr/E2ECheck.v — end-to-end cases: what the real gateway did on a generated federation/data/operation,
    compared with the model (components corr.x) and judged directly by the properties' own oracles (prop.x). *)
-From V Require Import Base.Util Gql.Ast Gql.RefExec Model.Perm Model.SkipInclude Model.PermFilter Model.Plan Model.MergeRes Model.Shape Model.FormatDoc Model.Gateway.
+From V Require Import Base.Util Gql.Ast Gql.RefExec Model.Perm Model.PermSpec Model.SkipInclude Model.PermFilter Model.Plan Model.MergeRes Model.Shape Model.FormatDoc Model.Gateway.
 
 Record obs_request := {
   or_varnames : list string;                        (* keys of the "variables" object that was sent *)
@@ -77,7 +77,17 @@ Definition fault_for (faults : list (string * string * fault)) (rq : request) : 
                        (String.eqb (snd (fst f)) "*" || String.eqb (snd (fst f)) target || String.eqb (snd (fst f)) tb)) faults with
   | Some f => Some (snd f) | None => None end.
 
-Definition erase_idx (p : list pe) : list pe := filter (fun e => match e with PName _ => true | PIdx _ => false end) p.
+(* list indices are not compared, and neither is the numbering of the aliases of a single-entity lookup document (_0, _1, ...:
+   it follows the order in which ids come out of a Go map) *)
+Fixpoint all_digits (s : string) : bool :=
+  match s with
+  | EmptyString => true
+  | String c r => (Nat.leb 48 (Ascii.nat_of_ascii c) && Nat.leb (Ascii.nat_of_ascii c) 57) && all_digits r
+  end.
+Definition lookup_alias (s : string) : bool :=
+  match s with String c (String d r) => Ascii.eqb c "_"%char && all_digits (String d r) | _ => false end.
+Definition erase_idx (p : list pe) : list pe :=
+  flat_map (fun e => match e with PName s => [PName (if lookup_alias s then "_" else s)] | PIdx _ => [] end) p.
 Definition path_eqb (a b : list pe) : bool := list_eqb pe_eqb a b.
 Definition err_key_eqb (a b : ekind * list pe * bool) : bool := ekind_eqb (fst (fst a)) (fst (fst b)) && path_eqb (snd (fst a)) (snd (fst b)) && Bool.eqb (snd a) (snd b).
 Fixpoint dedupe_by {A} (eqb : A -> A -> bool) (l : list A) : list A :=
@@ -210,20 +220,7 @@ Definition with_failing (sv : server) (l : list string) : server :=
      sv_owner := sv_owner sv; sv_unknown := sv_unknown sv; sv_failing := l |}.
 
 (* ---------- C03: the specification of filtering, from [allows] alone ---------- *)
-Fixpoint spec_filter (a : af) (path : list string) (s : sel) {struct s} : list sel * list (list string) :=
-  let go := fun (path : list string) => fix go (l : list sel) : list sel * list (list string) :=
-    match l with [] => ([], []) | x :: r => let '(k1, n1) := spec_filter a path x in let '(k2, n2) := go r in (k1 ++ k2, n1 ++ n2) end in
-  match s with
-  | SField al n ar ds t oss =>
-      if String.eqb n "__typename" || String.eqb n "__schema" || String.eqb n "__type" || allows a (path ++ [n]) then
-        match oss with
-        | None => ([s], [])
-        | Some ss => let '(k, e) := go (path ++ [n]) ss in ([SField al n ar ds t (Some k)], e)
-        end
-      else ([], [path ++ [n]])          (* the removed field, named by its path *)
-  | SInline tc ds e ss => let '(k, n) := go path ss in ([SInline tc ds e k], n)
-  | SSpread f ds e tc ss => let '(k, n) := go path ss in ([SSpread f ds e tc k], n)
-  end.
+(* the specification itself is Model/PermSpec.v (the one Proofs/PermSpecProofs.v relates to the model of filterFields) *)
 Definition spec_filter_op (p : option operm) (root : string) (ss : list sel) : list sel * list string :=
   match p with
   | None => (ss, [])
@@ -398,6 +395,8 @@ Definition check_e2e_case (c : e2e_case) : list (string * bool) :=
     (* every service one of whose requests failed outright is named by an error of its own (two services failing alike are
        two errors) *)
     ("prop.c05.every_failing_service_named",
+       (* an execution aborted by an internal error (one of the recorded planning/merge findings) reports only that *)
+       existsb (fun e => ekind_eqb (oe_kind e) EInternal) (obs_errors c) ||
        forallb (fun r => match or_fault r with
                          | Some f => if hard_fault f then existsb (fun e => String.eqb (oe_service e) (or_url r)) (obs_errors c) else true
                          | None => true end) (obs_requests c));
